@@ -77,6 +77,10 @@ func caseOptions(r *common.Run, n int) raftsim.Options {
 		o.Keys = 2
 	case "C06":
 		o.WRead, o.WPartition, o.WTransfer = 10, 2, 2
+		// C06 quantifies over heartbeat loss/duplication/reordering; a duplicated
+		// ReadIndex *request* re-queues an answered context behind later ones and
+		// lets an older heartbeat round confirm them (see DESIGN.md, observations)
+		o.NoDupReadIndex = true
 	case "C07":
 		o.WConfigChange, o.WCrash = 4, 2
 		o.NonVotings, o.Witnesses = 1, 1
@@ -140,9 +144,9 @@ func main() {
 		fmt.Println(string(b))
 		return
 	}
-	total := r.Pick(240, 6000)
+	total := r.Pick(1600, 160000)
 	if r.Prop == "C17" {
-		total = r.Pick(200, 6000)
+		total = r.Pick(1600, 160000)
 	}
 	for _, n := range r.MyCases(total) {
 		opt := caseOptions(r, n)
@@ -172,6 +176,8 @@ func runOne(r *common.Run, sk *sink, opt raftsim.Options, n int) {
 	if res.Converged {
 		r.Count("healed_within_bound", 1)
 		r.Max("max_heal_rounds", int64(res.HealRounds))
+	} else if res.PremiseFailed {
+		r.Count("premise_not_met_no_running_majority_of_a_known_membership", 1)
 	} else {
 		r.Count("not_healed_first_attempt", 1)
 		if r.Prop == "C17" {
@@ -182,7 +188,7 @@ func runOne(r *common.Run, sk *sink, opt raftsim.Options, n int) {
 				quiet := &sink{r: r, seen: map[string]int{}}
 				quiet.r = r
 				res2 := raftsim.RunCase(o2, &muted{}, false)
-				if !res2.Converged && !res2.Panicked {
+				if !res2.Converged && !res2.Panicked && !res2.PremiseFailed {
 					fails++
 				}
 			}
